@@ -1049,11 +1049,16 @@ class H2Stream:
             events[0].stream_ended = es_events[0]
             events += es_events
 
-        self._initialize_content_length(headers)
-
         if isinstance(events[0], TrailersReceived):
             if not end_stream:
                 raise ProtocolError("Trailers must have END_STREAM set")
+        else:
+            self._initialize_content_length(headers)
+
+        if end_stream:
+            # The message ends here without (further) DATA frames: the body
+            # received so far has to match the announced Content-Length.
+            self._track_content_length(0, end_stream)
 
         hdr_validation_flags = self._build_hdr_validation_flags(events)
         events[0].headers = self._process_received_headers(
